@@ -628,8 +628,8 @@ static void print_stats(const char *outcome)
 	    n_votes, s_vote_false_pred, s_vote_uncommitted, n_ev[39], n_ev[38], n_fossil_attempts);
 #ifdef VERIF_FAKE_PEER
 	printf(",\"peer_events\":%lu,\"peer_antis\":%lu,\"peer_anti_with_event\":%lu,\"peer_responses\":%lu,\"peer_got_events\":%lu,"
-	       "\"peer_got_antis\":%lu,\"peer_rounds\":%lu,\"peer_forced_deliveries\":%lu",
-	    fm_n_ev, fm_n_anti, fm_n_anti_first, fm_n_resp, fm_n_recv_ev, fm_n_recv_anti, fm_n_rounds, fm_n_forced);
+	       "\"peer_got_antis\":%lu,\"peer_rounds\":%lu,\"peer_forced_deliveries\":%lu,\"s_remote_id_not_unique\":%lu",
+	    fm_n_ev, fm_n_anti, fm_n_anti_first, fm_n_resp, fm_n_recv_ev, fm_n_recv_anti, fm_n_rounds, fm_n_forced, fm_dup_ids);
 #endif
 	printf(",\"points\":[");
 	for(int t = 0; t < vs_registered && t < VS_MAXT; ++t)
